@@ -21,6 +21,7 @@ import (
 
 	"github.com/Comcast/rulio/core"
 	"github.com/Comcast/rulio/sys"
+	"github.com/robertkrimen/otto"
 	"pgregory.net/rapid"
 
 	"verif/harness/vlib"
@@ -518,4 +519,181 @@ func runC17c(c c17cCase) *vlib.Outcome {
 
 func TestC17Create(t *testing.T) {
 	vlib.Check(t, "C17", genC17c, runC17c)
+}
+
+// ---------------------------------------------------------------------
+// part 4: wiping a location (DeleteLocation / ClearLocation) while other
+// requests are working on it
+//
+// Whatever instance the cache hands out after the wipe: a write that STARTED
+// after the wipe had returned is not touched by it, so it must be there for
+// every later read - also when the writing request (a script that sleeps
+// first) had been started before the wipe and holds the location meanwhile.
+
+type c17dCase struct {
+	Linear bool  `json:"linear"`
+	TTL    int   `json:"ttl"` // 0 forever, 1 = 1 h, 2 = 1 ms
+	Delete bool  `json:"delete"` // DeleteLocation rather than ClearLocation
+	Slow   []int `json:"slow"`   // per slow writer: ms to sleep inside the script before it writes
+	Fast   []int `json:"fast"`   // per fast writer: spin count before its writes
+	WipeAt int   `json:"wipeAt"` // ms before the wipe is issued
+	Noise  int   `json:"noise,omitempty"`
+}
+
+func genC17d(t *rapid.T) c17dCase {
+	var c c17dCase
+	c.Linear = rapid.Bool().Draw(t, "linear")
+	c.TTL = rapid.SampledFrom([]int{0, 0, 1, 2}).Draw(t, "ttl")
+	c.Delete = rapid.Bool().Draw(t, "delete")
+	ns := rapid.IntRange(1, 3).Draw(t, "nslow")
+	for i := 0; i < ns; i++ {
+		c.Slow = append(c.Slow, rapid.SampledFrom([]int{2, 5, 10, 20}).Draw(t, fmt.Sprintf("slow%d", i)))
+	}
+	nf := rapid.IntRange(0, 3).Draw(t, "nfast")
+	for i := 0; i < nf; i++ {
+		c.Fast = append(c.Fast, rapid.SampledFrom([]int{0, 100, 10000, 100000}).Draw(t, fmt.Sprintf("fast%d", i)))
+	}
+	c.WipeAt = rapid.SampledFrom([]int{0, 1, 3, 6}).Draw(t, "wipeAt")
+	if rapid.Bool().Draw(t, "noise?") {
+		c.Noise = rapid.IntRange(1, 1000).Draw(t, "noise")
+	}
+	return c
+}
+
+func runC17d(c c17dCase) *vlib.Outcome {
+	o := &vlib.Outcome{}
+	if len(c.Slow) < 1 || len(c.Slow) > 8 || len(c.Fast) > 8 || c.WipeAt < 0 || c.WipeAt > 100 {
+		o.Discard = true
+		return o
+	}
+	ttl := sys.Forever
+	switch c.TTL {
+	case 1:
+		ttl = time.Hour
+	case 2:
+		ttl = time.Millisecond
+	}
+	s, err := c17System(c.Linear, false, ttl)
+	if err != nil {
+		o.Fail("NEWSYSTEM", "%v", err)
+		return o
+	}
+	if _, err := s.AddFact(newCtx(), "shared", "seed", `{"seed":"yes"}`); err != nil {
+		o.Fail("NEWSYSTEM", "%v", err)
+		return o
+	}
+	if c.Noise > 0 {
+		_, end := startNoise(c.Noise)
+		defer end()
+		o.Label("schedule-noise")
+	}
+	type write struct {
+		id      string
+		started time.Time // just before the write was issued
+		err     error
+		readErr error // the writer's own read right after the acknowledgement
+	}
+	var mu sync.Mutex
+	var writes []*write
+	var wipeDone time.Time
+	var wipeErr error
+	var wg sync.WaitGroup
+	start := make(chan struct{})
+	for i, ms := range c.Slow {
+		wg.Add(1)
+		go func(i, ms int) {
+			defer wg.Done()
+			<-start
+			w := &write{id: fmt.Sprintf("slow%d", i)}
+			props := map[string]interface{}{
+				"mark": func(call otto.FunctionCall) otto.Value {
+					w.started = time.Now()
+					return otto.TrueValue()
+				},
+			}
+			code := fmt.Sprintf("Env.sleep(%d); Env.mark(); Env.AddFact('%s', {by: '%s'}); 'done'", ms*1000000, w.id, w.id)
+			_, w.err = s.RunJavascript(newCtx(), "shared", code, nil, nil, props)
+			if w.err == nil {
+				_, w.readErr = s.GetFact(newCtx(), "shared", w.id)
+			}
+			mu.Lock()
+			writes = append(writes, w)
+			mu.Unlock()
+		}(i, ms)
+	}
+	for i, spin := range c.Fast {
+		wg.Add(1)
+		go func(i, spin int) {
+			defer wg.Done()
+			<-start
+			x := 0
+			for j := 0; j < spin; j++ {
+				x += j
+			}
+			_ = x
+			for r := 0; r < 3; r++ {
+				w := &write{id: fmt.Sprintf("fast%d.%d", i, r), started: time.Now()}
+				_, w.err = s.AddFact(newCtx(), "shared", w.id, `{"by":"`+w.id+`"}`)
+				if w.err == nil {
+					_, w.readErr = s.GetFact(newCtx(), "shared", w.id)
+				}
+				mu.Lock()
+				writes = append(writes, w)
+				mu.Unlock()
+				time.Sleep(time.Millisecond)
+			}
+		}(i, spin)
+	}
+	wg.Add(1)
+	go func() {
+		defer wg.Done()
+		<-start
+		time.Sleep(time.Duration(c.WipeAt) * time.Millisecond)
+		if c.Delete {
+			wipeErr = s.DeleteLocation(newCtx(), "shared")
+		} else {
+			wipeErr = s.ClearLocation(newCtx(), "shared")
+		}
+		mu.Lock()
+		wipeDone = time.Now()
+		mu.Unlock()
+	}()
+	close(start)
+	wg.Wait()
+	what := "ClearLocation"
+	if c.Delete {
+		what = "DeleteLocation"
+	}
+	if wipeErr != nil {
+		o.Fail("WIPE_ERROR", "%s failed: %v", what, wipeErr)
+		return o
+	}
+	after := 0
+	for _, w := range writes {
+		if w.err != nil {
+			o.Fail("WRITE_ERROR", "[linear=%v ttl=%v] the write of %s failed: %v", c.Linear, ttl, w.id, w.err)
+			return o
+		}
+		if w.started.IsZero() || !w.started.After(wipeDone) {
+			continue // (concurrent with the wipe, or before it: may be wiped)
+		}
+		after++
+		if w.readErr != nil {
+			o.Fail("ACKNOWLEDGED_WRITE_MISSING", "[linear=%v ttl=%v] %s had returned %v before the write of %s started; the write was acknowledged, and the writer's own read right afterwards says: %v", c.Linear, ttl, what, w.started.Sub(wipeDone), w.id, w.readErr)
+			return o
+		}
+		if _, err := s.GetFact(newCtx(), "shared", w.id); err != nil {
+			o.Fail("ACKNOWLEDGED_WRITE_MISSING", "[linear=%v ttl=%v] %s had returned %v before the write of %s started; the write was acknowledged, and at the end: %v", c.Linear, ttl, what, w.started.Sub(wipeDone), w.id, err)
+			return o
+		}
+	}
+	if after > 0 {
+		o.NonTrivial = true
+		o.Label("write-after-wipe")
+	}
+	return o
+}
+
+func TestC17Wipe(t *testing.T) {
+	vlib.Check(t, "C17", genC17d, runC17d)
 }
